@@ -177,6 +177,21 @@ fn dump_cache(kind: &CacheKind, years: &JsonValue) -> JsonValue {
     o
 }
 
+/// for a CSV cache: the text of each year's file as it lies on disk (null when absent)
+fn dump_cache_files(kind: &CacheKind, years: &JsonValue) -> JsonValue {
+    let mut o = JsonValue::new_object();
+    if let CacheKind::Csv(dir) = kind {
+        for y in years.members() {
+            let y = y.as_i64().unwrap();
+            o[y.to_string()] = match std::fs::read_to_string(dir.join(format!("rates-{}.csv", y))) {
+                Ok(t) => t.into(),
+                Err(_) => JsonValue::Null,
+            };
+        }
+    }
+    o
+}
+
 fn seed_cache(kind: &CacheKind, seed: &JsonValue) {
     // initial cache content: {"2022": [[day, "rate"], ...]} written through the cache's own writer
     let mut c = kind.make();
@@ -233,6 +248,7 @@ pub fn hist(case: &JsonValue) -> JsonValue {
         o["requests"] = requests_json(&log);
         o["req_marks"] = marks; // number of requests made after each look-up
         o["cache_after"] = dump_cache(&kind, &case["years"]);
+        o["cache_files"] = dump_cache_files(&kind, &case["years"]);
         runs.push(o).unwrap();
     }
     let mut out = JsonValue::new_object();
